@@ -146,7 +146,7 @@ func runCase(out *bufio.Writer, flushLine bool, kind string, params []string, op
 		}
 		if res == "hang" {
 			abandoned++
-			if abandoned > 200 {
+			if abandoned > 5 { // each abandoned operation costs hangLimit of wall time: stop the shard early
 				out.WriteString("END\n")
 				out.Flush()
 				os.Exit(3)
